@@ -147,8 +147,17 @@ def materialise(tail, directory):
     return out
 
 
-def seed_args(tool, seed):
-    return ["--seed", str(seed)] if tool != "cnfshuffle" else ["-S", str(seed)]
+SEED_SPELLINGS = (("--seed", "%d"), ("-S", "%d"), ("--seed=%d",), ("-S%d",), ("--see", "%d"), ("--se=%d",), ("-S=%d",))
+
+
+def seed_args(tool, seed, key=None):
+    """The seed option in one of the spellings the parser accepts (separate, attached, abbreviated); the spelling is a
+    function of the command line, so that all runs of one group type exactly the same thing."""
+    if tool == "cnfshuffle" or key is None or seed < 0:
+        return ["--seed", str(seed)] if tool != "cnfshuffle" else ["-S", str(seed)]
+    import zlib
+    sp = SEED_SPELLINGS[zlib.crc32(repr((tool, seed, key)).encode()) % len(SEED_SPELLINGS)]
+    return [t % seed if "%d" in t else t for t in sp]
 
 
 def digest(b):
@@ -202,7 +211,7 @@ def case_processes(ctx, lo, hi, seeds, verbose_every):
                         ctx.count("terminal_size_runs")
                     sp = os.path.join(scratch, "saved.kthlist")      # same path every time: it is echoed in the header
                     at = [sp if t == "SAVEPATH" else t for t in argv_tail]
-                    argv = (seed_args(tool, seed) if seed is not None else []) + opts + at
+                    argv = (seed_args(tool, seed, argv_tail) if seed is not None else []) + opts + at
                     if tool == "cnfshuffle":
                         argv = seed_args(tool, seed) + ([] if verbose else ["-q"]) + at
                     if clock is not None:
@@ -224,7 +233,7 @@ def case_processes(ctx, lo, hi, seeds, verbose_every):
                     variants.append((hs, cwd, o, saved))
                 if len(variants) < 2:
                     continue
-                label = "%s %s" % (tool, " ".join((seed_args(tool, seed) if seed is not None else []) + opts + argv_tail))
+                label = "%s %s" % (tool, " ".join((seed_args(tool, seed, argv_tail) if seed is not None else []) + opts + argv_tail))
                 ctx.count("process_groups_compared")
                 ctx.count("tool_" + tool)
                 if seed == 0:
@@ -329,7 +338,7 @@ def _inprocess(ctx, items, seeds, scratch):
     for (tool, tail, stdin_text) in items:
         tail = materialise(tail, scratch)
         for seed in seeds:
-            argv = seed_args(tool, seed) + ["-q"] + list(tail)
+            argv = seed_args(tool, seed, list(tail)) + ["-q"] + list(tail)
             label = "%s %s" % (tool, " ".join(argv))
             random.seed(987654321)                 # a different ambient state before each run
             a = run_main(tool, argv, stdin_text=stdin_text)
